@@ -2,12 +2,14 @@ import TracklibVerif.Lemmas.ViterbiTable
 import TracklibVerif.Lemmas.ViterbiLik
 import TracklibVerif.Lemmas.ViterbiZero
 import TracklibVerif.Lemmas.Hmm
+import TracklibVerif.Lemmas.HmmPos
+import TracklibVerif.Lemmas.ViterbiBound
 import Mathlib.Algebra.Order.Monoid.Defs
 import Mathlib.Algebra.Order.Group.Nat
 /-! # C09 — hidden-Markov decoding returns a maximum-likelihood state sequence
 
 Property theorems only (helpers: `Lemmas/Viterbi.lean`, `Lemmas/ViterbiTable.lean`, `Lemmas/ViterbiLik.lean`,
-`Lemmas/ViterbiZero.lean`, `Lemmas/Hmm.lean`).
+`Lemmas/ViterbiZero.lean`, `Lemmas/Hmm.lean`, `Lemmas/HmmPos.lean`).
 T0–T4c are about `TV.Viterbi.decode`, the table-building executable model of the decoder inside `HMM.estimate`
 that the native driver runs against the real code (`Model/Viterbi.lean`), for a track of `N+1` epochs,
 any numbers of candidate states `t.n k ≥ 1` (they may differ per epoch) and any cost tables.
@@ -15,6 +17,10 @@ T5–T7 are about `TV.Hmm.estimate` (`Model/Hmm.lean`), the call as a whole: the
 (`estimate` honours its `log` argument since fix d19cf43: `self.log = self.log or log`), the compilation of the
 candidate states and of the observations from the track, the cost tables of THAT call, and the writing of
 `hmm_inference` (the state object) / `hmm_cost` — for histories of calls on tracks that already carry results.
+T8–T9 are about the POSITIONS: the modes 3, 4, 5 rebind the position of every epoch to the decoded state object and
+write no coordinate of any object; `x`, `y`, `z` as observation names read the coordinates of whatever object the
+position is when the call is made. T10–T11 are about what `S` may return (`TV.Hmm.estimateS`): anything with a length
+and integer indexing is a candidate list; anything else is a `TypeError` before the track is touched.
 
 Reading of the model: `t.obs k l` is `-Plog(STATES[k][l], OBS[k], k)`, `t.trans k m l` is
 `-Qlog(STATES[k][m], STATES[k+1][l], k)`, `t.add` is Python's `+`, `t.big` the `1e300` sentinel; the
@@ -115,6 +121,35 @@ theorem likelihood_form (n : Nat → Nat) (p : Nat → Nat → ℝ) (q : Nat →
     exact (cost_le_iff_lik_ge n p q eps big N hp hq (seqOf r) σ hv hσ).mp ho
   · have hc := (decoded_cost (likTables n p q eps big false) N hpos hbig r h).1 N (Nat.le_refl _)
     rw [hc, cost_eq_neg_log n p q eps big N hp hq (seqOf r) hv N (Nat.le_refl _)]
+
+/-- **`paths_below_of_bounded`** (the sentinel hypothesis made checkable). If no entry of the cost tables exceeds
+`B ≥ 0` and `2N·B` is below the sentinel, then `PathsBelow` holds: the `1e300` start value of `best_val` is never the
+minimum. (Over an ordered additive commutative monoid; `n • B` is `B + … + B`.) -/
+theorem paths_below_of_bounded [AddCommMonoid α] [IsOrderedAddMonoid α] (t : Tables α) (hadd : t.add = (· + ·))
+    (B : α) (hB : 0 ≤ B) (N : Nat)
+    (hobs : ∀ k l, k ≤ N → l < t.n k → t.obs k l ≤ B)
+    (htr : ∀ k m l, k < N → m < t.n k → l < t.n (k+1) → t.trans k m l ≤ B)
+    (hbig : (2 * N) • B < t.big) : PathsBelow t N :=
+  pathsBelow_of_bounded t hadd B hB N hobs htr hbig
+
+/-- **T4' `likelihood_form_nonneg`** (ℝ; T4 without a hypothesis on running costs). For NON-NEGATIVE likelihoods — zeros
+included, values above 1 included (unnormalised) — and a guard `0 < eps ≤ 1`, every cost is at most `-log eps`
+(690.78 for the code's `1e-300`), so it is enough that `2N·(-log eps)` is below the sentinel (for the code's constants:
+any track of fewer than `10^296` epochs, see the example below): the decoded sequence is a candidate sequence of maximal
+guarded joint likelihood and the cost recorded at the last epoch is `-log` of that maximum. -/
+theorem likelihood_form_nonneg (n : Nat → Nat) (p : Nat → Nat → ℝ) (q : Nat → Nat → Nat → ℝ) (eps big : ℝ) (N : Nat)
+    (hpos : ∀ k, k ≤ N → 0 < n k) (he : 0 < eps) (he1 : eps ≤ 1)
+    (hp : ∀ k l, k ≤ N → l < n k → 0 ≤ p k l)
+    (hq : ∀ k m l, k < N → m < n k → l < n (k+1) → 0 ≤ q k m l)
+    (hbig : (2 * N : ℝ) * (- Real.log eps) < big)
+    (r : List (Nat × ℝ)) (h : decode (likTables n p q eps big false) (N+1) = .ok r) :
+    (∀ k, k ≤ N → seqOf r k < n k) ∧
+    (∀ σ : Nat → Nat, (∀ k, k ≤ N → σ k < n k) → lik p q eps σ N ≤ lik p q eps (seqOf r) N) ∧
+    costAt r N = some (- Real.log (lik p q eps (seqOf r) N)) :=
+  likelihood_form n p q eps big N hpos
+    (fun k l hk hl => by have := hp k l hk hl; linarith)
+    (fun k m l hk hm hl => by have := hq k m l hk hm hl; linarith)
+    (likTables_pathsBelow n p q eps big N he he1 hp hq hbig) r h
 
 /-- **T4b `logs_supplied_same`.** A user who passes the logarithms `log (v + eps)` of the same likelihoods
 and declares the model with `log=True` makes `estimate` work on exactly the same cost tables: same decoded
@@ -274,6 +309,96 @@ theorem estimate_twice [LinearOrder β] [Add β] [Neg β] (nm : Num β) (h1 h2 :
     obtain ⟨r2, tr2, hd2, he2, _, _, _, hres2, _⟩ :=
       estimate_ok nm h2 tr1 obs2 log2 mode2 N w1 (by omega) OBS2 hobs2 hS2
     exact ⟨r2, tr2, hd2, he2, hres2⟩
+
+/-- **T8 `estimate_positions`** (modes 3, 4, 5: positions written from states). Hypotheses of T5 and one position per
+epoch. The call writes NO coordinate: the coordinates of the track's own position objects (`xyz`) are what they were
+(those of the state objects, `nm.stXYZ`, are a constant of the model: a state — also one that is the position object of
+another epoch of the same track, or shared by several epochs — is never modified). In the modes 3, 4, 5 the position
+of EVERY epoch is rebound to the state object recorded in `hmm_inference` for that epoch (`r` is the decoding of T5),
+so its coordinates are that state's; in every other mode every position is the object it was. -/
+theorem estimate_positions [LinearOrder β] [Add β] [Neg β] (nm : Num β) (h : Obj β) (tr : Trk β) (obs : List String)
+    (log : Bool) (mode N : Nat) (hwf : tr.WF) (hsize : tr.size = N + 1) (hplen : tr.pos.length = tr.size)
+    (OBS : List (List (ObsItem β)))
+    (hobs : (List.range tr.size).mapM (fun k => getObsK nm tr obs k mode) = .ok OBS)
+    (hS : ∀ k, k ≤ N → h.S tr k ≠ []) :
+    ∃ r tr', decode (tablesOf nm { h with log := h.log || log } tr ((List.range tr.size).map (h.S tr)) OBS) (N+1) = .ok r ∧
+      estimate nm h tr obs log mode = ({ h with log := h.log || log }, tr', none) ∧
+      tr'.xyz = tr.xyz ∧
+      (PosMode mode → ∀ k, k ≤ N → tr'.pos[k]? = some (some ((h.S tr k).getD (seqOf r k) 0)) ∧
+        tr'.posXYZ nm k = some (nm.stXYZ ((h.S tr k).getD (seqOf r k) 0))) ∧
+      (¬ PosMode mode → tr'.pos = tr.pos ∧ ∀ k, tr'.posXYZ nm k = tr.posXYZ nm k) := by
+  obtain ⟨r, tr', hd, he, hx, _, hp, hn⟩ := estimate_pos nm h tr obs log mode N hwf hsize hplen OBS hobs hS
+  refine ⟨r, tr', hd, he, hx, fun hm k hk => ?_, fun hm => ?_⟩
+  · have := hp hm k hk
+    exact ⟨this, by simp [Trk.posXYZ, this]⟩
+  · have := hn hm
+    exact ⟨this, fun k => by simp [Trk.posXYZ, this, hx]⟩
+
+/-- **T9 `positions_as_observations`** (the names `x`, `y`, `z`; `MarkovRegularization` decodes with
+`obs=["x","y","z"]` in mode 4). Reading `x` / `y` / `z` at epoch `k` yields the coordinates of the object the position
+of epoch `k` is at that moment. Hence after a decoding in mode 3, 4, 5 (T8) a further call — or the user — reads the
+coordinates of the decoded STATE of every epoch; after a decoding in any other mode, what was read before. -/
+theorem positions_as_observations (nm : Num β) (tr : Trk β) (k : Nat) (p : β × β × β)
+    (hp : tr.posXYZ nm k = some p) :
+    tr.getObs nm "x" k = .ok (.num p.1) ∧ tr.getObs nm "y" k = .ok (.num p.2.1) ∧
+      tr.getObs nm "z" k = .ok (.num p.2.2) := by
+  refine ⟨?_, ?_, ?_⟩ <;> simp [Trk.getObs, hp]
+
+/-- T8 + T9: what `x`, `y`, `z` read after a decoding in mode 3, 4, 5 -/
+theorem estimate_then_xyz [LinearOrder β] [Add β] [Neg β] (nm : Num β) (h : Obj β) (tr : Trk β) (obs : List String)
+    (log : Bool) (mode N : Nat) (hwf : tr.WF) (hsize : tr.size = N + 1) (hplen : tr.pos.length = tr.size)
+    (OBS : List (List (ObsItem β)))
+    (hobs : (List.range tr.size).mapM (fun k => getObsK nm tr obs k mode) = .ok OBS)
+    (hS : ∀ k, k ≤ N → h.S tr k ≠ []) (hm : PosMode mode) :
+    ∃ r tr', decode (tablesOf nm { h with log := h.log || log } tr ((List.range tr.size).map (h.S tr)) OBS) (N+1) = .ok r ∧
+      estimate nm h tr obs log mode = ({ h with log := h.log || log }, tr', none) ∧
+      ∀ k, k ≤ N →
+        tr'.getObs nm "x" k = .ok (.num (nm.stXYZ ((h.S tr k).getD (seqOf r k) 0)).1) ∧
+        tr'.getObs nm "y" k = .ok (.num (nm.stXYZ ((h.S tr k).getD (seqOf r k) 0)).2.1) ∧
+        tr'.getObs nm "z" k = .ok (.num (nm.stXYZ ((h.S tr k).getD (seqOf r k) 0)).2.2) := by
+  obtain ⟨r, tr', hd, he, _, hp, _⟩ := estimate_positions nm h tr obs log mode N hwf hsize hplen OBS hobs hS
+  exact ⟨r, tr', hd, he, fun k hk => positions_as_observations nm tr' k _ (hp hm k hk).2⟩
+
+/-- **T10 `any_sequence_of_candidates`** (what `S` returns). `estimate` uses `S(track, k)` through `len` and `[i]` only.
+When every epoch's return value has a length — list, tuple, numpy array, `range`, `deque`, a user class — the call is
+exactly `estimate` on the items in index order (`ObjS.toObj`): same flag, same track, same exception if any. So T5–T9
+hold with "candidates of epoch `k`" = the items of whatever `S` returned. (`NoDomainError`: no value that is converted
+lies outside the domain of `math.log` — true when the flag is set and for likelihoods `v` with `v + 1e-300 > 0`; T12
+is the other case.) -/
+theorem any_sequence_of_candidates [LinearOrder β] [Add β] [Neg β] (nm : Num β) (h : ObjS β) (tr : Trk β)
+    (obs : List String) (log : Bool) (mode : Nat) (hs : ∀ k, k < tr.size → (h.S tr k).isSized = true)
+    (hd : NoDomainError nm h tr obs log mode) :
+    (estimateS nm h tr obs log mode).1.log = (estimate nm h.toObj tr obs log mode).1.log ∧
+    (estimateS nm h tr obs log mode).2 = (estimate nm h.toObj tr obs log mode).2 := by
+  rw [estimateS_sized nm h tr obs log mode hs hd]
+  exact ⟨rfl, rfl⟩
+
+/-- the flag is set (constructor, `setLog`, or the argument of this call): nothing is converted, `math.log` is not called -/
+theorem no_domain_error_of_log [Add β] (nm : Num β) (h : ObjS β) (tr : Trk β) (obs : List String) (log : Bool) (mode : Nat)
+    (hl : (h.log || log) = true) : NoDomainError nm h tr obs log mode := by
+  intro OBS _
+  simp only [domainError, ObjS.toObj, hl]
+  rfl
+
+/-- **T12 `negative_likelihood_raises`.** The flag is not set and, among the values `P` / `Q` return for the candidates of
+the track (every candidate of every epoch, every pair of candidates of consecutive epochs), one is outside the domain of
+`math.log` once the guard is added (`v + 1e-300 ≤ 0`: a negative "likelihood"): `ValueError` — raised in the first
+column or the forward pass, so NOTHING of the track is written; the flag is or-ed (i.e. stays unset). -/
+theorem negative_likelihood_raises [LinearOrder β] [Add β] [Neg β] (nm : Num β) (h : ObjS β) (tr : Trk β)
+    (obs : List String) (log : Bool) (mode : Nat) (hs : ∀ k, k < tr.size → (h.S tr k).isSized = true)
+    (hne : tr.size ≠ 0) (OBS : List (List (ObsItem β)))
+    (hobs : (List.range tr.size).mapM (fun k => getObsK nm tr obs k mode) = .ok OBS)
+    (hd : domainError nm { h.toObj with log := h.log || log } tr ((List.range tr.size).map (h.toObj.S tr)) OBS = true) :
+    estimateS nm h tr obs log mode = ({ h with log := h.log || log }, tr, some .value) :=
+  estimateS_domain nm h tr obs log mode hs hne OBS hobs hd
+
+/-- **T11 `candidates_without_length`.** When `S` returns at some epoch something without a length (a generator, `None`,
+a bare state object): `TypeError`; the flag has been or-ed into the object; NOTHING of the track is written (no feature
+created, no position rebound) — whatever the other epochs, the observations and the mode are. -/
+theorem candidates_without_length [LinearOrder β] [Add β] [Neg β] (nm : Num β) (h : ObjS β) (tr : Trk β)
+    (obs : List String) (log : Bool) (mode : Nat) (k : Nat) (hk : k < tr.size) (hu : (h.S tr k).isSized = false) :
+    estimateS nm h tr obs log mode = ({ h with log := h.log || log }, tr, some .type) :=
+  estimateS_unsized nm h tr obs log mode k hk hu
 end calls
 
 /-! Non-vacuity: a 3-epoch model over ℕ with 2, 1 and 2 candidate states (they differ per epoch; no state
@@ -299,6 +424,21 @@ example : PathsBelow exT 2 := by
   · simp only [exT, cost]; split <;> split <;> simp
   · simp only [exT, cost]; repeat' split
     all_goals simp
+set_option exponentiation.threshold 400 in
+/-- the bound of T4' for the code's constants (`eps = 1e-300`, sentinel `1e300`) and a track of a million epochs:
+`-log eps = 300 log 10 ≤ 2700` -/
+example : (2 * (10 ^ 6 : ℕ) : ℝ) * (- Real.log (1 / 10 ^ 300)) < 10 ^ 300 := by
+  have h10 : Real.log 10 ≤ 9 := by
+    have := Real.log_le_sub_one_of_pos (show (0 : ℝ) < 10 by norm_num)
+    linarith
+  have e : Real.log (1 / 10 ^ 300) = -(300 * Real.log 10) := by
+    rw [one_div, Real.log_inv, Real.log_pow]; push_cast; ring
+  rw [e]
+  have : (2 * (10 ^ 6 : ℕ) : ℝ) * (- -(300 * Real.log 10)) ≤ 2 * 10 ^ 6 * (300 * 9) := by
+    push_cast
+    nlinarith
+  refine lt_of_le_of_lt this ?_
+  norm_num
 /-- the hypotheses of T4 are satisfiable: two epochs of two states, all likelihoods 1, no guard -/
 example : PathsBelow (likTables (fun _ => 2) (fun _ _ => 1) (fun _ _ _ => 1) 0 1000 false) 1 := by
   intro σ _ k hk
@@ -340,6 +480,38 @@ example : let tr1 := (estimate nmZ hA tr0 ["ya"] false 0).2.1
           let r := estimate nmZ hB tr1 ["ya"] true 0
           (r.1.log, r.2.2, r.2.1.get? "hmm_inference" 0, r.2.1.get? "hmm_inference" 1, r.2.1.get? "hmm_cost" 1)
             = (true, none, some (.st 1), some (.st 0), some (.num 0)) := by
+  decide +kernel
+
+/-- states that are positions: state `s` is at `(10 s, 0, 0)`; a decoding in mode 5 rebinds the positions, `x` then
+reads the decoded states' abscissae; the own coordinates of the track are untouched -/
+private def nmP : Num Int := { nmZ with stXYZ := fun s => (10 * (s : Int), 0, 0) }
+private def trP : Trk Int := { tr0 with xyz := [(3, 4, 5), (6, 7, 8)] }
+example : let r := estimate nmP hA trP ["ya"] false 5
+          (r.2.1.pos, r.2.1.xyz) = ([some 0, some 1], [(3, 4, 5), (6, 7, 8)]) ∧
+          ((r.2.1.getObs nmP "x" 0).toOption, (r.2.1.getObs nmP "x" 1).toOption) = (some (.num 0), some (.num 10)) ∧
+          ((trP.getObs nmP "x" 1).toOption, (trP.getObs nmP "z" 1).toOption) = (some (.num 6), some (.num 8)) := by
+  decide +kernel
+example : PosMode 5 ∧ ¬ PosMode 0 := by unfold PosMode; decide
+/-- `S` returning a tuple at epoch 0 and a numpy array at epoch 1 is `S` returning their items; a generator at epoch 1
+is a TypeError that leaves the track as it was -/
+private def hS1 : ObjS Int := { S := fun _ _ => .sized [0, 1], Q := hA.Q, P := hA.P, log := true }
+private def hS2 : ObjS Int := { S := fun _ k => if k = 1 then .unsized else .sized [0, 1], Q := hA.Q, P := hA.P, log := false }
+example : let a := estimateS nmZ hS1 tr0 ["ya"] false 0
+          let b := estimate nmZ hA tr0 ["ya"] false 0
+          (a.2.1.cols, a.2.1.pos, a.2.2) = (b.2.1.cols, b.2.1.pos, b.2.2) ∧ a.2.1.get? "hmm_inference" 1 = some (.st 1) := by
+  decide +kernel
+/-- `math.log` defined on the positive numbers only; model A's `P` returns `-1` for the wrong state: declared as
+likelihoods (flag unset) the call raises ValueError and writes nothing; with the flag given to the call it decodes -/
+private def nmD : Num Int := { nmZ with logDom := fun x => decide (0 < x) }
+private def hS3 : ObjS Int := { hS1 with log := false, Q := fun _ _ _ _ => 1 }
+example : let a := estimateS nmD hS3 tr0 ["ya"] false 0
+          (a.2.1.cols, a.2.1.pos, a.2.2, a.1.log) = (tr0.cols, tr0.pos, some .value, false) := by
+  decide +kernel
+example : let a := estimateS nmD hS3 tr0 ["ya"] true 0
+          (a.2.2, a.1.log, a.2.1.get? "hmm_inference" 1) = (none, true, some (.st 1)) := by
+  decide +kernel
+example : let a := estimateS nmZ hS2 tr0 ["ya"] true 3
+          (a.2.1.cols, a.2.1.pos, a.2.2, a.1.log) = (tr0.cols, tr0.pos, some .type, true) := by
   decide +kernel
 end example_calls
 end TV.C09
